@@ -51,7 +51,7 @@ def payloads(rng, tier):
 
 def build(stream, p):
     rows, v0, table = p["rows"], p["v0"], p["table"]
-    arr = gen.acc_array(rows)
+    reuse = (len(rows) + v0) % 2 == 0       # the array is (re)filled when the case RUNS, not when it is built
     tab = None if table is None else np.array(table, dtype=int)
     if stream == "encode":
         bits, fast = p["bits"], p["fast"]
@@ -77,7 +77,8 @@ def build(stream, p):
                     tags=[p["kind"], "fast=%d" % fast, "table=%d" % (table is not None)])
     w, L = p["w"], p["L"]
     call = enc_call(21, s2c(w), L, gen.enc_acc(rows), v0, 0, [], gen.enc_table(table))
-    impl = lambda: guard(lambda: dsw.decode(w, L, arr, v0, shuffles=tab), lambda r: [[int(x) for x in r]])
+    impl = lambda: guard(lambda: dsw.decode(w, L, gen.acc_array(rows, reuse=reuse), v0, shuffles=tab),
+                         lambda r: [[int(x) for x in r]])
 
     def oracle(ans, raw):
         val = cc.walk_value(rows, v0, table, w)
